@@ -48,7 +48,9 @@ def gen(rng, tier, i):
                 # on_state_change collaborator: absent, recording, or raising when a listed state is entered
                 "cb": weighted(rng, [(6, None), (1, []), (1.5, [rng.choice(["NORMAL", "CONSERVING", "STARVING", "FEASTING"])]),
                                      (0.7, ["NORMAL", "CONSERVING", "STARVING", "FEASTING"])]),
-                "silent": rng.random() < 0.85}
+                "silent": rng.random() < 0.85,
+                # constructor parameter that no sequential path should read (the timer thread never runs here)
+                "rate": rng.choice([0, 0, 0, 1, 2.5, 7])}
     stores = [store(), store()]
     n = rng.randint(2, 10 if tier == "quick" else 16)
     ops = []
@@ -87,6 +89,10 @@ def simplify(plan):
         if s.get("silent") is False:
             ns = [dict(x) for x in stores]
             ns[j]["silent"] = True
+            yield {**plan, "config": {"stores": ns}}
+        if s.get("rate"):
+            ns = [dict(x) for x in stores]
+            ns[j]["rate"] = 0
             yield {**plan, "config": {"stores": ns}}
     for oi, op in enumerate(plan["ops"]):
         if op[0] == "consume" and op[5]:
@@ -135,7 +141,8 @@ def run(plan, k):
                 k.probe("callback_raised")
                 raise CallbackFault(name)
         return cb
-    stores = [ATP_Store(budget=c["budget"], gtp_budget=c["gtp"], nadh_reserve=c["nadh"], regeneration_rate=0.0,
+    stores = [ATP_Store(budget=c["budget"], gtp_budget=c["gtp"], nadh_reserve=c["nadh"],
+                        regeneration_rate=float(c.get("rate", 0)),
                         max_debt=c["max_debt"], debt_interest=c["interest"],
                         on_state_change=(mk_cb(si, c["cb"]) if c.get("cb") is not None else None),
                         silent=c.get("silent", True)) for si, c in enumerate(cfgs)]
